@@ -370,15 +370,18 @@ class H2ConnModel:
         names = ["ok"] + [e.__name__ for e in excs]
         k = ctx.choose(len(names), f"h2.{what}@{fr.line}", names)
         if k > 0:
+            interp.traces.setdefault("h2_refused", []).append(what)
             _raise(excs[k - 1], fr.where())
 
     def _require_open(self, interp, obj, sid, fr, what, extra=()):
         ctx = interp.ctx
         if ctx.branch(obj.fields["conn_closed"], f"h2.closed@{fr.line}"):
+            interp.traces.setdefault("h2_refused", []).append(what)
             _raise(h2.exceptions.ProtocolError, fr.where())
         if not ctx.branch(z3.Select(obj.fields["open"], sid), f"h2.open({what})@{fr.line}"):
             excs = [h2.exceptions.StreamClosedError, h2.exceptions.ProtocolError] + list(extra)
             k = ctx.choose(len(excs), f"h2.{what}.closed@{fr.line}", [e.__name__ for e in excs])
+            interp.traces.setdefault("h2_refused", []).append(what)
             _raise(excs[k], fr.where())
 
     # -- API used by hypercorn ----------------------------------------------------------------
@@ -488,6 +491,7 @@ class H2ConnModel:
 
     def m_receive_data(self, interp, obj, args, kwargs, fr):
         ctx = interp.ctx
+        interp.traces.setdefault("h2_in", []).append(ops.as_payload(ctx, args[0]))
         k = ctx.choose(2, f"h2.receive_data@{fr.line}", ["events", "ProtocolError"])
         if k == 1:
             obj.fields["conn_closed"] = z3.BoolVal(True)
